@@ -46,6 +46,92 @@ def field_loads(fn):
     return out
 
 
+def ok_exits(fn):
+    """return blocks that are not error returns (every `ret` block that is not in validation.err_return_blocks)"""
+    errs = validation.err_return_blocks(fn)
+    return [b for b, blk in enumerate(fn.blocks) if not blk[2] and blk[1][0] == "ret" and b not in errs] or \
+           [b for b, blk in enumerate(fn.blocks) if not blk[2] and blk[1][0] == "ret"]
+
+
+def governing_predicate(fn, bb):
+    """(callee path, truth) of the nearest dominating branch on the boolean result of a call that decides whether bb runs:
+    `if header.flags.use_lf_frame() && field >= 4 { Err }` -> ("..::use_lf_frame", True) for the block comparing the field"""
+    best = None
+    for sb, blk in enumerate(fn.blocks):
+        if blk[2] or blk[1][0] != "switch" or sb == bb or not fn.dominates(sb, bb):
+            continue
+        t = blk[1]
+        l = op_local(t[1])
+        if l is None or fn.local_ty(l) != "bool":
+            continue
+        # the switch operand is (a copy of) a call result
+        src = None
+        seen = set()
+        cur = l
+        while cur is not None and cur not in seen:
+            seen.add(cur)
+            ds = [x for b2, blk2 in enumerate(fn.blocks) if not blk2[2] for x in
+                  ([st for st in blk2[0] if st[0] == "=" and st[1] == [cur]] + ([blk2[1]] if blk2[1][0] == "call" and blk2[1][3] == [cur] else []))]
+            if len(ds) != 1:
+                break
+            d = ds[0]
+            if d[0] == "call":
+                c = callee(d)
+                src = c["fn"] if c else None
+                break
+            if d[2][0] == "use":
+                cur = op_local(d[2][1])
+                continue
+            break
+        if not src or src.startswith(("core::", "std::", "alloc::")):
+            continue
+        # which edge leads to bb?
+        truth = None
+        for v, succ in [(x[0], x[1]) for x in t[2]] + [("otherwise", t[3])]:
+            if succ == bb or fn.dominates(succ, bb):
+                truth = (v != "0")
+        if truth is None:
+            continue
+        if best is None or fn.dominates(best[2], sb):
+            best = (src, truth, sb)
+    return (best[0], best[1]) if best else None
+
+
+def under_predicate(fn, bb, pred, truth):
+    """is block bb only reached through the `truth` edge of a branch on the result of a call to pred?"""
+    for sb, blk in enumerate(fn.blocks):
+        if blk[2] or blk[1][0] != "switch" or not fn.dominates(sb, bb) or sb == bb:
+            continue
+        g = governing_predicate(fn, bb) if False else None
+        t = blk[1]
+        l = op_local(t[1])
+        if l is None:
+            continue
+        # find the defining call of l (through copies)
+        cur, seen, src = l, set(), None
+        while cur is not None and cur not in seen:
+            seen.add(cur)
+            ds = [x for blk2 in fn.blocks if not blk2[2] for x in
+                  ([st for st in blk2[0] if st[0] == "=" and st[1] == [cur]] + ([blk2[1]] if blk2[1][0] == "call" and blk2[1][3] == [cur] else []))]
+            if len(ds) != 1:
+                break
+            d = ds[0]
+            if d[0] == "call":
+                c = callee(d)
+                src = c["fn"] if c else None
+                break
+            if d[2][0] == "use":
+                cur = op_local(d[2][1])
+                continue
+            break
+        if src != pred:
+            continue
+        for v, succ in [(x[0], x[1]) for x in t[2]] + [("otherwise", t[3])]:
+            if (v != "0") == truth and (succ == bb or fn.dominates(succ, bb)):
+                return True
+    return False
+
+
 def compared_fields(fn):
     """(blanket, refinements): fields a load of which takes part in an ordering comparison anywhere in fn.
     A comparison that is a validation check (reject edge -> error return) against a constant is returned as a refinement
@@ -54,6 +140,8 @@ def compared_fields(fn):
     loads = field_loads(fn)
     blanket = set()
     refs = []
+    cond_refs = fn._cache.setdefault("cond_refs", [])
+    del cond_refs[:]
     try:
         vchecks = {(c["bb"], c["pos"]): c for c in validation.checks(fn)}
     except Exception:
@@ -70,6 +158,7 @@ def compared_fields(fn):
             return loads[p[0]]
         return None
 
+    oks = None
     for b, blk in enumerate(fn.blocks):
         if blk[2]:
             continue
@@ -83,9 +172,20 @@ def compared_fields(fn):
                     if k is None:
                         continue
                     if vc is not None and isinstance(vc["other"], int) and op_const_int(other) is not None:
-                        refs.append((k, vc["op"], vc["other"]))
-                    else:
+                        # the bound holds for every accepted header only if the check runs on every accepted path: the checking
+                        # block dominates every successful return (`if a && field >= 4 { Err }` bounds nothing when !a)
+                        if oks is None:
+                            oks = ok_exits(fn)
+                        if all(fn.dominates(b, r) for r in oks):
+                            refs.append((k, vc["op"], vc["other"]))
+                        else:
+                            g = governing_predicate(fn, b)
+                            if g is not None:
+                                cond_refs.append((k, vc["op"], vc["other"], g[0], g[1]))
+                    elif op_const_int(other) is None:
                         blanket.add(k)
+                    # a branch on `field <op> constant` that is not a validation bounds nothing outside its own arm: uses under the
+                    # arm are recognised by locally_guarded
         t = blk[1]
         if t[0] == "call":
             c = callee(t)
@@ -106,9 +206,37 @@ def compared_fields(fn):
     return blanket, refs
 
 
-def locally_guarded(fn, l, bb, skip=None):
-    """an ordering comparison on a member of l's value class dominates bb (the sink statement itself excluded)"""
-    al = IV.value_class(fn, l)
+def locally_guarded(fn, l, bb, skip=None, eq_ok=False):
+    """an ordering comparison on a member of l's value class dominates bb (the sink statement itself excluded); with eq_ok an
+    (in)equality test against a constant counts as well (`if x != 0 { x - 1 }`)"""
+    al = set(IV.value_class(fn, l))
+    # two loads of one field through a shared reference are one value (`if h.lf_level != 0 { h.lf_level - 1 }`)
+    loads_of = fn._cache.get("place_loads")
+    if loads_of is None:
+        loads_of = {}
+        for blk in fn.blocks:
+            if blk[2]:
+                continue
+            for st in blk[0]:
+                if st[0] == "=" and len(st[1]) == 1 and st[2][0] == "use" and st[2][1][0] == "c":
+                    p = st[2][1][1]
+                    if len(p) > 1 and fn.local_ty(p[0]).startswith("&") and not fn.local_ty(p[0]).startswith("&mut"):
+                        loads_of.setdefault(repr(p), set()).add(st[1][0])
+        fn._cache["place_loads"] = loads_of
+    for grp in loads_of.values():
+        if grp & al:
+            for x in grp:
+                al |= set(IV.value_class(fn, x))
+    if eq_ok:
+        for b, blk in enumerate(fn.blocks):
+            if blk[2] or not fn.dominates(b, bb) or b == bb:
+                continue
+            for st in blk[0]:
+                if st is not skip and st[0] == "=" and st[2][0] == "bin" and st[2][1] in ("Eq", "Ne") and blk[1][0] == "switch":
+                    for o, other in ((st[2][2], st[2][3]), (st[2][3], st[2][2])):
+                        x = op_local(o)
+                        if x is not None and x in al and op_const_int(other) is not None:
+                            return True
     for b, blk in enumerate(fn.blocks):
         if blk[2] or not fn.dominates(b, bb):
             continue
@@ -152,10 +280,12 @@ def analyse(prog, crates):
     fns = [f for f in prog.all_fns(crates) if f.kind != "Promoted"]
     validated = set()
     refinements = []
+    cond_refinements = []
     for f in fns:
         bl, rf = compared_fields(f)
         validated |= bl
         refinements.extend(rf)
+        cond_refinements.extend(f._cache.get("cond_refs", []))
     # constant-bound validation checks narrow the field's range everywhere (optimistic about ordering: the check is assumed to
     # run before every use), instead of silencing it altogether
     for k, op, kv in refinements:
@@ -258,7 +388,7 @@ def analyse(prog, crates):
                         k = loads.get(l)
                     if k is not None and k in validated:
                         skip = True
-                    if l is not None and locally_guarded(f, l, b, skip=st):
+                    if l is not None and locally_guarded(f, l, b, skip=st, eq_ok=(kind == "arith")):
                         skip = True
                     if kind == "div" and l is not None and nonzero_tested(f, l, b):
                         skip = True
@@ -271,6 +401,30 @@ def analyse(prog, crates):
                                 nm = f.local_name(x)
                                 break
                     names.append(nm or "?")
+                if not skip and cond_refinements:
+                    # a bound that the parser enforces only when a predicate holds (`use_lf_frame() && lf_level >= 4 -> Err`)
+                    # covers the uses that sit under the same predicate
+                    for tag in (a.src | c.src):
+                        if not tag.startswith("field:"):
+                            continue
+                        adt_, _, fld_ = tag[6:].rpartition(".")
+                        for k_, op_, kv_, pred_, truth_ in cond_refinements:
+                            if k_ != (adt_, fld_) or not under_predicate(f, b, pred_, truth_):
+                                continue
+                            v_ = a if tag in a.src else c
+                            lo_, hi_ = v_.lo, v_.hi
+                            if op_ == ">":
+                                hi_ = min(hi_, kv_)
+                            elif op_ == ">=":
+                                hi_ = min(hi_, kv_ - 1)
+                            elif op_ == "<":
+                                lo_ = max(lo_, kv_)
+                            elif op_ == "<=":
+                                lo_ = max(lo_, kv_ + 1)
+                            if kind == "index" and v_ is a and hi_ < c.lo:
+                                skip = True
+                            elif kind == "shift" and v_ is c and bits and 0 <= lo_ and hi_ < bits:
+                                skip = True
                 if skip:
                     continue
                 if all(n == "?" for n in names):
